@@ -110,7 +110,7 @@ func (s *SchedSpec) explore(c *Ctx, prefix []vsched.Choice, split bool) (childre
 	}
 	a.Outcomes[s.UnitName+": "+x.outcome]++
 	a.State(s.UnitName+": "+x.outcome, res.Preempt > 0 || len(res.Points) > 1)
-	if a.Evaluations <= 2 || len(x.viols) > 0 {
+	if a.Evaluations <= 1 || len(x.viols) > 0 || (res.Preempt > 0 && res.Preempt == s.Bound && len(a.Samples) < 3) {
 		a.Sample(map[string]any{"unit": s.UnitName, "schedule": renderSchedule(res.Points), "preemptions": res.Preempt, "outcome": x.outcome}, 6)
 	}
 	all := choicesOf(res.Points)
